@@ -98,15 +98,16 @@ def has_tie(cfg, pred, ref):
     return info["tie"] or fragile
 
 
-def one_case(ctx, pred, ref, cfg, src):
+def one_case(ctx, pred, ref, cfg, src, fixed=None):
+    """fixed: a list of (prediction', reference', description) to use instead of three random transformations"""
     rng = ctx.rng
     base = E.run_impl(cfg, pred, ref)
     if isinstance(base, str):
         return
     base = base["ungrouped"]
     tie = has_tie(cfg, pred, ref)
-    for k in range(3):
-        p2, r2, desc = transform(rng, pred, ref)
+    for k in range(3 if fixed is None else len(fixed)):
+        p2, r2, desc = transform(rng, pred, ref) if fixed is None else fixed[k]
         inp = {"shape": list(pred.shape), "pred": gen.arr_json(pred), "ref": gen.arr_json(ref), "cfg": cfg,
                "transform": desc, "t_shape": list(p2.shape), "t_pred": gen.arr_json(p2), "t_ref": gen.arr_json(r2), "src": src}
         m = (pred != 0) | (ref != 0)
@@ -329,6 +330,25 @@ def corpus(ctx):
     one_case(ctx, pred, ref, E.mk_cfg("SEMANTIC", ["IOU", "DSC"], matcher=E.naive("IOU", (3, 10))), "corpus.contested")
 
 
+def singleton_axis_corpus(ctx):
+    """a single slice holding thick objects (with interior voxels), stored as a volume with an axis of length one, against
+    the same volume zero-padded along that axis and along the others: distances, counts and overlaps must not change"""
+    s_ref = np.zeros((9, 11), np.uint8)
+    s_pred = np.zeros((9, 11), np.uint8)
+    s_ref[1:7, 1:6], s_pred[2:8, 1:7] = 1, 1
+    s_ref[2:5, 8:10], s_pred[2:5, 7:10] = 2, 2
+    for ax in (0, 1, 2):
+        p, r = np.expand_dims(s_pred, ax), np.expand_dims(s_ref, ax)
+        fixed = []
+        for pads in ([(2, 2) if a == ax else (0, 0) for a in range(3)], [(0, 3) if a == ax else (0, 0) for a in range(3)],
+                     [(1, 1) if a == ax else (2, 1) for a in range(3)]):
+            fixed.append((np.pad(p, pads), np.pad(r, pads), {"pad": [list(x) for x in pads], "layout": "C", "layout_ref": "C"}))
+        for cfg in (E.mk_cfg("MATCHED", ["IOU", "DSC", "ASSD"]), E.mk_cfg("UNMATCHED", ["IOU", "ASSD"], matcher=E.naive("IOU", (1, 4))),
+                    E.mk_cfg("SEMANTIC", ["IOU", "ASSD"], matcher=E.naive("IOU", (1, 4)))):
+            ctx.count("singleton_axis_padding")
+            one_case(ctx, p, r, cfg, f"corpus.singleton-axis-{ax}", fixed=fixed)
+
+
 def special_pair(rng):
     """(a) a volume with an axis of length one whose blobs touch only across corners / edges; (b) a volume without
     any background voxel carrying two or three class values"""
@@ -373,6 +393,7 @@ def run_cases(ctx, n, tag):
 
 def run(ctx):
     corpus(ctx)
+    singleton_axis_corpus(ctx)
     huge_padding(ctx, ctx.scale(3, 12))
     big_canvas(ctx, ctx.scale(2, 8))
     big_instance(ctx, ctx.scale(1, 3))
